@@ -11,6 +11,7 @@ import (
 	"path"
 	"slices"
 	"strings"
+	"sync"
 	"time"
 
 	"github.com/go-git/go-git/v5"
@@ -43,12 +44,18 @@ func (c *gitCommit) When() time.Time {
 func (c *gitCommit) History() iter.Seq[Revision] {
 	return func(yield func(Revision) bool) {
 		at, iter := c.c, object.NewCommitPreorderIter(c.c, nil, nil)
-		for {
+
+		// advance reads from (and may fetch into) the repository's clone, which is shared with all other users of the
+		// repository.
+		advance := func() (*object.Commit, bool) {
+			c.r.m.Lock()
+			defer c.r.m.Unlock()
+
 			// Try to get the next commit. If there's an error, fetch the repo history and resume iteration.
 			next, err := iter.Next()
 			if err != nil {
 				if errors.Is(err, io.EOF) {
-					return
+					return nil, false
 				}
 				err = c.r.r.FetchContext(context.TODO(), &git.FetchOptions{
 					RemoteName: "origin",
@@ -57,18 +64,26 @@ func (c *gitCommit) History() iter.Seq[Revision] {
 					Force:      true,
 				})
 				if err != nil && !errors.Is(err, git.NoErrAlreadyUpToDate) {
-					return
+					return nil, false
 				}
 
 				iter = object.NewCommitPreorderIter(at, nil, nil)
 				next, err = iter.Next()
 				if err != nil {
-					return
+					return nil, false
 				}
 				next, err = iter.Next()
 				if err != nil {
-					return
+					return nil, false
 				}
+			}
+			return next, true
+		}
+
+		for {
+			next, ok := advance()
+			if !ok {
+				return
 			}
 			if !yield(&gitCommit{r: c.r, c: next}) {
 				return
@@ -79,6 +94,10 @@ func (c *gitCommit) History() iter.Seq[Revision] {
 }
 
 type gitRepository struct {
+	// m serializes the operations on r and on its work tree in dir. Both are shared by everything that uses the
+	// repository: a go-git repository is not safe for concurrent use, and FetchRevision checks a revision out into
+	// the one work tree before it copies that tree.
+	m sync.Mutex
 	r *git.Repository
 
 	dir           string
@@ -233,6 +252,9 @@ func (r *gitRepository) GetRevision(ctx context.Context, id string) (Revision, e
 		return nil, fmt.Errorf("invalid revision %q", id)
 	}
 
+	r.m.Lock()
+	defer r.m.Unlock()
+
 	// Check cached refs for this revision.
 	var ref string
 	for r, hash := range r.refs {
@@ -273,6 +295,10 @@ func (r *gitRepository) GetRevision(ctx context.Context, id string) (Revision, e
 
 func (r *gitRepository) FetchRevision(ctx context.Context, projectPath string, revision Revision, destDir string) error {
 	commit := revision.(*gitCommit)
+
+	// The checkout and the copy of the work tree must not interleave with those of another revision.
+	r.m.Lock()
+	defer r.m.Unlock()
 
 	tree, err := r.r.Worktree()
 	if err != nil {
